@@ -18,7 +18,7 @@ import (
 
 // C10: tokens are confined to their endpoints and tenants.
 
-var c10ClaimSets = [][]string{nil, {}, {"e1"}, {"e1", "e2"}, {"e1x"}, {"E1"}, {"e2"}}
+var c10ClaimSets = [][]string{nil, {}, {"e1"}, {"e1", "e2"}, {"e1x"}, {"E1"}, {"e2"}, {""}, {" "}, {"", ""}, {"e2", ""}, {" e1"}}
 
 func permitted(claims []string, ep string) bool {
 	if len(claims) == 0 {
@@ -237,9 +237,10 @@ func init() {
 		evals, nontrivial := 0, 0
 		c10Endpoints(run, &evals, &nontrivial, &mu)
 		c10Tenants(run, &evals, &nontrivial, &mu)
+		c10MixedTenants(run, &evals, &nontrivial, &mu)
 		run.Set("evaluations", evals)
 		run.Set("distinct_nontrivial", nontrivial)
-		run.Set("rule", "real server with HMAC auth and listeners on e1, e2, e1x: 7 endpoint-claim sets x 13 ways of naming the target (Host label, header, conflicting both ways, TCP path, near-miss names) x 2 token headers on the proxy port, and x 5 endpoint names on the upstream (listen) port; tenants: 3 tenant tables x default key on/off x token signed by {default, t1, t2} x tenant header {absent, t1, t2, unknown}; non-trivial = combinations that must be refused or that name conflicting endpoints")
+		run.Set("rule", "real server with HMAC auth and listeners on e1, e2, e1x: 12 endpoint-claim sets (incl. blank and padded ids) x 13 ways of naming the target (Host label, header, conflicting both ways, TCP path, near-miss names) x 2 token headers on the proxy port, and x 5 endpoint names on the upstream (listen) port; tenants: 3 tenant tables x default key on/off x token signed by {default, t1, t2} x tenant header {absent, t1, t2, unknown}; 6 tenant tables with keys of different types (HMAC, RSA, ECDSA default and tenant keys) x 4 signers x tenant headers, one token string per signer replayed under every header; non-trivial = combinations that must be refused or that name conflicting endpoints")
 		run.Set("exhaustive", true)
 		fmt.Printf("  C10: probes=%d must-refuse-or-conflicting=%d\n", evals, nontrivial)
 		return run.Finish()
